@@ -936,7 +936,53 @@ struct ArraysWorld : World {
 				{ Sut s; delete sl; }
 				outcome = 1; break;
 			} else { if (op.c & 1) { { Sut s; *PA[h] = *PA[h2]; } MP3[h] = MP3[h2]; operated = h + 10; log.ev("X_ASSIGN plain %d = %d", h, h2); } else { { Sut s; *A[h] = *A[h2]; } M3[h] = M3[h2]; log.ev("X_ASSIGN %d = %d", h, h2); } outcome = 1; break; }
-			case OP_X_RELEASE: { if (op.c & 1) { { Sut s; *PA[h] = typed_array<uint32_t>(); } MP3[h].clear(); operated = h + 10; log.ev("X_RELEASE plain %d", h); } else { { Sut s; *A[h] = array(); } M3[h].clear(); log.ev("X_RELEASE %d", h); } outcome = 1; break; }
+			case OP_X_RELEASE: if ((op.c & 14) == 6) {
+				// episode on an encode_array without encoder (plain appending with a consumer): what was pushed and not yet taken reads back in
+				// order, whatever was consumed in front of it, whatever room was asked for, and whoever holds a copy
+				struct EA : public encode_array { using encode_array::_state; using encode_array::_d; };
+				EA *e; { Sut s; e = new EA(); }
+				std::vector<uint8_t> live; size_t done = 0;
+				auto reads = [&](EA *x, const std::vector<uint8_t> &lv, size_t dn, const char *what) {
+					span<const uint8_t> d; { Sut s; d = x->data(); }
+					if ((size_t) d.size() != dn || (dn && memcmp(d.begin(), lv.data(), dn))) { size_t k = 0; while (k < (size_t) d.size() && k < dn && d.begin()[k] == lv[k]) ++k;
+						fail("wrong-content", "encode_array %s: %zu finished bytes readable, %zu were pushed and not taken (first difference at %zu)", what, (size_t) d.size(), dn, k); }
+					const array::content *c = x->_d.data(); size_t n = c ? c->length() : 0;
+					if (x->_state.done + x->_state.scratch != lv.size() || n < lv.size()) fail("wrong-content", "encode_array %s: holds %zu bytes (%zu in its buffer), %zu were pushed and not taken", what, (size_t) (x->_state.done + x->_state.scratch), n, lv.size());
+					if (!lv.empty() && memcmp((const uint8_t *) c->data() + (n - lv.size()), lv.data(), lv.size())) { const uint8_t *b = (const uint8_t *) c->data() + (n - lv.size()); size_t k = 0; while (k < lv.size() && b[k] == lv[k]) ++k;
+						fail("wrong-content", "encode_array %s: byte %zu of the %zu pushed and not taken reads differently", what, k, lv.size()); }
+				};
+				for (int k = 0; k < 10; ++k) {
+					uint64_t z = ((uint64_t) op.c + 3) * 0x9e3779b97f4a7c15ull + (uint64_t) k * 0xbf58476d1ce4e5b9ull; z ^= z >> 30;
+					unsigned act = (unsigned) (z % 8); size_t n = 1 + (size_t) ((z >> 8) % 40);
+					if (act <= 2) {
+						std::vector<uint32_t> w32 = fresh(n); Block wb(n, 0); for (size_t i = 0; i < n; ++i) wb.p[i] = (uint8_t) w32[i];
+						ssize_t r; { Sut s(k == 5 ? failn : 0); r = e->push(n, wb.p); if (k == 5) fired = g.fired; }
+						log.ev("X_ENCARR push %zu -> %zd", n, r);
+						if (r < 0) { if (!fired) fail("refused-valid", "encode_array push of %zu bytes refused (%zd) without allocation fault", n, r); }
+						else { if ((size_t) r > n) fail("wrong-content", "encode_array push reports %zd of %zu bytes", r, n); live.insert(live.end(), wb.p, wb.p + r); }
+					} else if (act == 3) { ssize_t r; { Sut s; r = e->push(0, 0); } log.ev("X_ENCARR finish -> %zd", r); if (r >= 0) done = live.size(); }
+					else if (act == 4) { size_t t = (z >> 16) & 1 ? done : (size_t) ((z >> 20) % (done + 2)); if (!t) t = 1; bool ok; { Sut s; ok = e->shift(t); }
+						log.ev("X_ENCARR take %zu of %zu finished -> %d", t, done, (int) ok);
+						if (ok && t > done) fail("accepted-invalid", "encode_array gave away %zu bytes, %zu were finished", t, done);
+						if (!ok && t <= done) fail("refused-valid", "encode_array refused to give away %zu of %zu finished bytes", t, done);
+						if (ok) { live.erase(live.begin(), live.begin() + t); done -= t; st.hit("probe:encode_array_consumed"); } }
+					else if (act == 5) { bool ok; { Sut s; ok = e->shift(0); } log.ev("X_ENCARR move to front -> %d", (int) ok); }
+					else if (act == 6) { bool ok; { Sut s(k == 5 ? failn : 0); ok = e->prepare(n * 7); if (k == 5) fired = g.fired; } log.ev("X_ENCARR room for %zu -> %d", n * 7, (int) ok);
+						if (!ok && !fired) fail("refused-valid", "encode_array refused to make room for %zu bytes without allocation fault", n * 7); st.hit("probe:encode_array_prepare"); }
+					else {
+						// a copy shares the buffer: pushing to it leaves the first one as it is
+						EA *c; { Sut s; c = new EA(*e); }
+						std::vector<uint32_t> w32 = fresh(n); Block wb(n, 0); for (size_t i = 0; i < n; ++i) wb.p[i] = (uint8_t) w32[i];
+						ssize_t r; { Sut s; r = c->push(n, wb.p); }
+						log.ev("X_ENCARR push %zu to a copy -> %zd", n, r);
+						if (r >= 0) { std::vector<uint8_t> lc = live; lc.insert(lc.end(), wb.p, wb.p + r); reads(c, lc, done, "copy after a push"); }
+						{ Sut s; delete c; } st.hit("probe:encode_array_copy_pushed");
+					}
+					reads(e, live, done, act <= 2 ? "after push" : act == 3 ? "after finish" : act == 4 ? "after take" : act == 5 ? "after move to front" : act == 6 ? "after making room" : "after its copy was pushed to");
+				}
+				{ Sut s; delete e; }
+				outcome = 1; break;
+			} else { if (op.c & 1) { { Sut s; *PA[h] = typed_array<uint32_t>(); } MP3[h].clear(); operated = h + 10; log.ev("X_RELEASE plain %d", h); } else { { Sut s; *A[h] = array(); } M3[h].clear(); log.ev("X_RELEASE %d", h); } outcome = 1; break; }
 			case OP_X_APPEND: {
 				void *r; { Sut s(failn); r = A[h]->append(len, nul ? 0 : src.p); fired = g.fired; }
 				log.ev("X_APPEND %d len=%zu%s%s -> %s", h, len, nul ? " zeros" : "", fired ? " allocfail" : "", r ? "ok" : "null");
